@@ -794,6 +794,54 @@ func checkC15e2e(h *History, vs []*opView) {
 	}
 }
 
+// ---- C17: two upstreams, one server, different trust ----
+
+func checkC17pair(h *History, vs []*opView) {
+	specs := map[string]*plan.UpstreamSpec{}
+	for i := range h.RP.Upstreams {
+		specs[h.RP.Upstreams[i].Tag] = &h.RP.Upstreams[i]
+	}
+	via := map[string]*plan.UpstreamSpec{} // token -> upstream the rules select
+	for _, v := range vs {
+		if v.q == nil || !v.supported || v.outcome.Kind != "forward" {
+			continue
+		}
+		sp := specs[v.outcome.Forward]
+		if sp == nil {
+			continue
+		}
+		via[v.o.Op.Token] = sp
+		name := fmt.Sprintf("op %d via upstream %s (%s, ca=%v other_ca=%v)", v.o.Op.Idx, sp.Tag, sp.Addr, sp.UseCA, sp.OtherCA)
+		answered := false
+		for _, m := range v.resps {
+			if m == nil {
+				continue
+			}
+			if _, ok := peers.DecodeMeta(m); ok && m.Rcode() == 0 {
+				answered = true
+			}
+		}
+		if sp.MustFail {
+			h.S.Probe("c17_pair_mustfail_checked")
+			if answered {
+				h.S.Fail("C17", "unauthenticated-upstream-accepted", "%s: the exchange succeeded although the server's certificate does not chain to this upstream's trust anchors (another upstream with the same server name can authenticate it)", name)
+			}
+		} else {
+			h.S.Probe("c17_pair_ok_checked")
+			if !answered && len(v.o.Resps) > 0 && v.keptOpen > 7*time.Second {
+				h.S.Fail("C17", "authenticated-upstream-rejected", "%s: no answer although the server presents a valid certificate for this upstream's CA", name)
+			}
+		}
+	}
+	for _, tag := range h.UpOrder {
+		for _, q := range h.Ups[tag].Queries {
+			if sp := via[q.Token]; sp != nil && sp.MustFail {
+				h.S.Fail("C17", "query-sent-to-unauthenticated-peer", "the server received the query of token %s, which the rules route through upstream %s that cannot authenticate it", q.Token, sp.Tag)
+			}
+		}
+	}
+}
+
 // ---- C17 (c): listener mTLS ----
 
 func checkC17mtls(h *History, vs []*opView) {
